@@ -19,6 +19,10 @@ import subprocess
 import sys
 import time
 import traceback
+import warnings
+warnings.filterwarnings("ignore")
+import logging
+logging.disable(logging.CRITICAL)
 
 VERIF = os.path.dirname(os.path.dirname(os.path.abspath(__file__)))
 REPO = os.environ.get("VERIF_REPO", "/repo")
@@ -97,9 +101,11 @@ def run_driver(layer, lines, timeout=1800):
 
 
 def load_obligations(pid):
-    with open(os.path.join(LEAN, "obligations.json")) as f:
-        ob = json.load(f)
-    return ob.get(pid, {"modules": [], "theorems": [], "witnesses": []})
+    path = os.path.join(LEAN, "obligations", pid + ".json")
+    if not os.path.exists(path):
+        return {"modules": [], "theorems": [], "witnesses": []}
+    with open(path) as f:
+        return json.load(f)
 
 
 _BAD = re.compile(r"\b(sorry|admit|native_decide|bv_decide|implemented_by)\b|^\s*axiom\s|\bunsafe\s|maxHeartbeats\s+0\b")
@@ -300,6 +306,14 @@ def standard_main(pid, run):
     args = ap.parse_args(sys.argv[2:] if len(sys.argv) > 1 and not sys.argv[1].startswith("-") else sys.argv[1:])
     seed = seed_from_env()
     res = Result(pid, args.tier, seed)
+    import signal
+
+    def _alarm(_sig, _frm):
+        print("HARNESS-TIMEOUT %s: watchdog expired" % pid)
+        sys.stdout.flush()
+        os._exit(2)
+    signal.signal(signal.SIGALRM, _alarm)
+    signal.alarm(int(os.environ.get("VERIF_WATCHDOG_S", 900 if args.tier == "quick" else 7200)))
     try:
         ok, log, secs = lean_build()
         aud = audit(pid) if ok else {"obligations": len(load_obligations(pid).get("theorems", [])) or 1,
